@@ -340,7 +340,7 @@ func (f *File) startSegmentIfNeeded(b Box, boxStartPos uint64) {
 				idx++
 			}
 		}
-	case f.tfra != nil:
+	case f.tfra != nil && segIdx < len(f.tfra.Entries):
 		if boxStartPos == uint64(f.tfra.Entries[segIdx].MoofOffset) {
 			segStart = true
 		}
